@@ -673,6 +673,7 @@ func (w *c14World) project(routeKind string, r c15Resp, d *c14Desc) J {
 type c14Engine struct {
 	w     *c14World
 	mux   *engineApi.Mux
+	hist  []c14Req
 	steps []J
 	last  string // canonical text of the last emitted observation
 	raw   map[string]c15Resp
@@ -783,6 +784,14 @@ func (e *c14Engine) send(q c14Req) c15Resp {
 			}
 		}
 	}
+	if r.Status != 200 && (q.Method == "POST" || q.Method == "PUT" || q.Method == "PATCH") && kind != "none" {
+		// hidden state: replay the history with and without the failed request, then one successful no-op write
+		// (which rebuilds the served snapshot from the live model), and compare what is served
+		if diff := c14HiddenChange(e.hist, q); diff != "" {
+			w.oracleLine("error-status-but-hidden-state-changed", q, r, abs, "answered "+strconv.Itoa(r.Status)+" but after a later no-op write "+diff+" differs from the run without this request")
+		}
+	}
+	e.hist = append(e.hist, q)
 	if r.Status == 200 && q.Method == "POST" && (kind == "scenario" || kind == "solutions") {
 		got := raw[c14Api+"/"+kind]
 		if got.Status != 200 || got.Body != q.Body {
@@ -793,6 +802,33 @@ func (e *c14Engine) send(q c14Req) c15Resp {
 		w.oracleLine("served-valuation-differs-from-fresh-instance", q, r, abs, "GET /model serves decision variables that a fresh model in the served action set does not have")
 	}
 	return r
+}
+
+func c14HiddenChange(hist []c14Req, failed c14Req) string {
+	noop := c14Req{"PUT", c14Api + "/model/actions/active", c14Csv, "SubCatchment\n"}
+	serve := func(with bool) map[string]string {
+		m := c15NewMux()
+		for _, q := range hist {
+			c14Do(m, q)
+		}
+		if with {
+			c14Do(m, failed)
+		}
+		c14Do(m, noop)
+		out := map[string]string{}
+		for _, p := range []string{"/scenario", "/solutions", "/model", "/model/actions/active"} {
+			r := c14Do(m, c14Req{Method: "GET", Path: c14Api + p})
+			out[p] = strconv.Itoa(r.Status) + " " + c14NoTime(r.Body)
+		}
+		return out
+	}
+	a, b := serve(true), serve(false)
+	for p, v := range a {
+		if b[p] != v {
+			return p
+		}
+	}
+	return ""
 }
 
 func c14NoTime(body string) string {
